@@ -129,10 +129,19 @@ function cleanup(c) {
 }
 
 // run one text under one vector; returns an observation string, or {skip:why}
+// The vm timeout only guards against programs that loop without calling a host function (host calls are budgeted). It is a
+// wall-clock limit, so a first expiry decides nothing: the run is repeated in a fresh context with a limit a hundred times longer,
+// and only a program that exceeds that as well counts as non-terminating (a loaded machine cannot stretch microseconds to seconds).
 function observe(text, mode, vector, c) {
-  try { return observe1(text, mode, vector, c); } finally { try { cleanup(c); } catch (e) {} }
+  let r;
+  try { r = observe1(text, mode, vector, c, 50); } finally { try { cleanup(c); } catch (e) {} }
+  if (r && r.skip === 'timeout') {
+    const c2 = makeContext();
+    r = observe1(text, mode, vector, c2, 5000);
+  }
+  return r;
 }
-function observe1(text, mode, vector, c) {
+function observe1(text, mode, vector, c, limit) {
   const log = [];
   let calls = 0;
   const hosts = [0, 1, 2, 3].map(i => function (...args) {
@@ -149,12 +158,12 @@ function observe1(text, mode, vector, c) {
       // the call happens inside the vm so that the timeout also covers F's body
       for (let i = 0; i < 4; i++) g['__h' + i] = hosts[i];
       const script = new vm.Script(text + '\n;if(typeof F!=="function")throw new SyntaxError("F is not a function");F(__h0,__h1,__h2,__h3)', { filename: 'case.js' });
-      const r = script.runInContext(c.ctx, { timeout: 50 });
+      const r = script.runInContext(c.ctx, { timeout: limit });
       completion = 'return ' + enc(r, 0, []);
     } else {
       for (let i = 0; i < 4; i++) g['h' + i] = hosts[i];
       const script = new vm.Script(text, { filename: 'case.js' });
-      script.runInContext(c.ctx, { timeout: 50 });
+      script.runInContext(c.ctx, { timeout: limit });
       completion = 'normal'; // the completion value of a script is not observable by the program
     }
   } catch (e) {
